@@ -52,16 +52,32 @@ def parseWriteEntry (tok : String) : Option (R WriteMem) :=
     if a < 2 ^ 64 then pure (WriteMem.new a d) else none
   | _ => none
 
-def allSome {α} : List (Option α) → Option (List α)
-  | [] => some []
-  | none :: _ => none
-  | some a :: r => (allSome r).map (a :: ·)
+/-- tail recursive (entry lists of > 10^5 elements are sent) -/
+def allSome {α} (xs : List (Option α)) : Option (List α) :=
+  let rec go : List (Option α) → List α → Option (List α)
+    | [], acc => some acc.reverse
+    | none :: _, _ => none
+    | some a :: r, acc => go r (a :: acc)
+  go xs []
 
-def allOk {α} : List (R α) → R (List α)
-  | [] => .ok []
-  | .ok a :: r => do let rest ← allOk r; pure (a :: rest)
-  | .err e :: _ => .err e
-  | .panic :: _ => .panic
+/-- first non-ok element decides, as `?` in a loop does; tail recursive -/
+def allOk {α} (xs : List (R α)) : R (List α) :=
+  let rec go : List (R α) → List α → R (List α)
+    | [], acc => .ok acc.reverse
+    | .ok a :: r, acc => go r (a :: acc)
+    | .err e :: _, _ => .err e
+    | .panic :: _, _ => .panic
+  go xs []
+
+/-- compact request form: the token `rep:<n>:<entry>` stands for `n` copies of `<entry>` -/
+def expandToks (toks : List String) : List String :=
+  (toks.foldl (fun acc tok =>
+    match tok.splitOn ":" with
+    | "rep" :: n :: rest =>
+      match n.toNat? with
+      | some n => (List.replicate n (":".intercalate rest)).reverseAux acc
+      | none => tok :: acc
+    | _ => tok :: acc) []).reverse
 
 def showCtor (r : R Cmd) (id : Nat) (sink : String) : String :=
   match r with
@@ -81,14 +97,14 @@ def handle : List String → String
       if id < 2 ^ 16 then showCtor (w >>= fun w => pure (.writeMem w)) id sink else "bad-op"
     | _, _, _ => "bad-op"
   | p :: "rms" :: sink :: id :: ents =>
-    match profileOf p, id.toNat?, allSome (ents.map parseReadEntry) with
+    match profileOf p, id.toNat?, allSome ((expandToks ents).map parseReadEntry) with
     | some _, some id, some es =>
       if id < 2 ^ 16 then
         showCtor (ReadMemStacked.new es >>= fun s => pure (.readMemStacked s)) id sink
       else "bad-op"
     | _, _, _ => "bad-op"
   | p :: "wms" :: sink :: id :: ents =>
-    match profileOf p, id.toNat?, allSome (ents.map parseWriteEntry) with
+    match profileOf p, id.toNat?, allSome ((expandToks ents).map parseWriteEntry) with
     | some p, some id, some ws =>
       if id < 2 ^ 16 then
         showCtor (do
